@@ -249,7 +249,11 @@ class Intervals:
             ds = [d for d in b.defs(pl["l"]) if not d[4]]
             for _ in range(4):
                 if len(ds) == 1 and ds[0][2] == "assign" and ds[0][3]["rv"]["r"] in ("use", "cast") and op_place(ds[0][3]["rv"]["o"]) is not None and not op_place(ds[0][3]["rv"]["o"])["p"]:
-                    ds = [d for d in b.defs(op_place(ds[0][3]["rv"]["o"])["l"]) if not d[4]]
+                    src_l = op_place(ds[0][3]["rv"]["o"])["l"]
+                    m = re.match(r"^&?(mut )?\[.*; (\d+)\]$", b.local_ty(src_l))
+                    if m:
+                        return int(m.group(2))
+                    ds = [d for d in b.defs(src_l) if not d[4]]
                 else:
                     break
             if len(ds) == 1 and ds[0][2] == "assign" and ds[0][3]["rv"]["r"] == "ref":
